@@ -229,6 +229,20 @@ Theorem C04_relabel_frame : forall g group f, NoDup (ids f) -> NoDup group -> in
 Proof. exact relabel_rows. Qed.
 Print Assumptions C04_relabel_frame.
 
+(* ---- del tree[key] removes the one node the key resolves to; rename is set_data on a str node ---- *)
+Theorem C04_del : forall w ti key r w',
+  step w (ODel ti key) = (Ok r, w') ->
+  exists t n, get_tree w ti = Some t /\ getitem t key = Some [n] /\ step w (ORemove ti n false false) = (Ok r, w').
+Proof. exact del_effect. Qed.
+Print Assumptions C04_del.
+
+Theorem C04_rename : forall w ti n d r w',
+  step w (ORename ti n d) = (Ok r, w') ->
+  exists t s, get_tree w ti = Some t /\ get_node n (forest_of t) = Some s /\ i_isstr (rinfo s) = true /\
+              step w (OSetData ti n (Some d) None None) = (Ok r, w').
+Proof. exact rename_effect. Qed.
+Print Assumptions C04_rename.
+
 (* ---- frame across trees, for EVERY operation and EVERY outcome (success, refusal, failing
         callback): only the tree the operation works on can change; existing trees are never
         dropped (ext = no shorter, and equal at every other index) ---- *)
@@ -238,14 +252,27 @@ Theorem C04_frame_other_trees : forall w o,
 Proof. exact step_frame_trees. Qed.
 Print Assumptions C04_frame_other_trees.
 
-(* Not proved as Coq statements (kept as definitions; the correspondence and harness/mut_spec.py
-   decide them on every run):
-   - sort(deep=True): every child list of the branch is the stable sorted permutation of what it was;
-   (set_data on clone groups IS proved: C04_set_data + C04_relabel_frame.) *)
-Definition C04_sort_deep_statement : Prop :=
-  forall k rv t t' failed fuel, sort_deep fuel k rv t false = (t', failed) -> size t < fuel -> failed = false ->
-    Permutation (ids_t t') (ids_t t) /\ rid t' = rid t /\ rinfo t' = rinfo t /\
-    exists ch', rch t' = ch' /\ Permutation (map rid ch') (map rid (rch t)) /\ Sorted (if rv then (fun x y => kle k y x) else kle k) ch'.
+(* ---- sort(deep=True): relational specification [deep_sorted] (no fuel, no failure flag): at every
+        level of the branch the child list is the stable sorted permutation py_sort of what it was ---- *)
+Theorem C04_sort_deep_branch : forall k rv fuel t t',
+  sort_deep fuel k rv t false = (t', false) -> size t < fuel -> deep_sorted k rv t t'.
+Proof. exact sort_deep_spec. Qed.
+Print Assumptions C04_sort_deep_branch.
+
+(* sort / sort_children at the level of step, deep or not: effect on the named child list, frame on
+   all other rows, registry and index untouched *)
+Theorem C04_sort : forall w ti p k rv dp r w',
+  step w (OSort ti p k rv dp) = (Ok r, w') ->
+  exists t t' pq ch ch',
+    get_tree w ti = Some t /\ get_tree w' ti = Some t' /\
+    parent_path p (forest_of t) = Some pq /\ get_ch pq (forest_of t) = Some ch /\
+    get_ch pq (forest_of t') = Some ch' /\
+    (if dp then Forall2 (deep_sorted k rv) (py_sort k rv ch) ch' else ch' = py_sort k rv ch) /\
+    repl_rows (rows p ch) (rows p ch') (rows 0 (forest_of t)) (rows 0 (forest_of t')) /\
+    reg t' = reg t /\ idx t' = idx t /\
+    (forall tj, tj <> ti -> get_tree w' tj = get_tree w tj).
+Proof. exact sort_effect. Qed.
+Print Assumptions C04_sort.
 
 (* non-vacuity: a concrete history on which the hypotheses hold *)
 Definition dA : dat := D 0 0 11 true [97%Z].
@@ -267,3 +294,8 @@ Example C04_sort_nonvacuous :
   map rid (py_sort k false [T 1 dummy_info []; T 2 dummy_info []; T 3 dummy_info []]) = [2; 1; 3] /\
   map rid (py_sort k true [T 1 dummy_info []; T 2 dummy_info []; T 3 dummy_info []]) = [1; 3; 2].
 Proof. split; vm_compute; reflexivity. Qed.
+Example C04_sort_deep_nonvacuous :
+  let k : keyt := [(1, Some [97%Z]); (2, Some [99%Z]); (3, Some [98%Z])] in
+  let t := T 1 dummy_info [T 2 dummy_info []; T 3 dummy_info []] in
+  exists t', sort_deep 5 k false t false = (t', false) /\ map rid (rch t') = [3; 2].
+Proof. eexists. split; vm_compute; reflexivity. Qed.
